@@ -132,6 +132,6 @@ def main(run):
     for i in range(N_CFG[run.tier]):
         cfg = gen_cfg(rnd, "sage", exact=(i % 3 != 2))
         run_config(run, cfg, rnd.randrange(2 ** 31), f"s{run.shard[0]}c{i}")
-        if i % 6 == 5 and cfg["imputer"] != "library-default":
+        if i % 6 == 5 and cfg["imputer"] != "library-default" and cfg["storage"][0] != "library-default":
             cfg2 = dict(cfg, vary_calls=False, warm_start=0)
             run_shared(run, cfg2, rnd.randrange(2 ** 31), f"s{run.shard[0]}c{i}shared")
